@@ -218,3 +218,41 @@ def multichar_cnf_specs(draw, terms=("a", "b")):
     if not out:
         out = [[S, [T[0]]]]
     return {"V": V, "T": T, "R": out, "S": S}
+
+
+@st.composite
+def numbered_cfg_specs(draw, terms=("a", "b")):
+    """26-32 variables named <letter><index> (N0 .. N29): every name 'existing name + digit' is taken as well, so fresh-name schemes that append a
+    counter to a hint have to check the result.  A small core (N0, N1, N2 and N10..N13) carries the rules, some of them long; the other variables
+    have one terminal rule each."""
+    P = draw(st.sampled_from(["N", "A", "S", "X"]))
+    n = draw(st.integers(26, 32))
+    V = ["%s%d" % (P, i) for i in range(n)]
+    T = list(terms)
+    core = [V[0], V[1], V[2]] + V[10:14]
+    R = []
+    for A in core:
+        for _ in range(draw(st.integers(1, 2))):
+            ln = draw(st.sampled_from([1, 2, 3, 3, 4]))
+            rhs = []
+            for _ in range(ln):
+                if draw(st.booleans()):
+                    rhs.append(core[draw(st.integers(0, len(core) - 1))])
+                else:
+                    rhs.append(T[draw(st.integers(0, len(T) - 1))])
+            if rhs == [A]:
+                rhs = [T[0]]
+            R.append([A, rhs])
+    for A in core[1:]:
+        if draw(st.booleans()):
+            R.append([A, [T[draw(st.integers(0, len(T) - 1))]]])
+    R.append([V[0], [core[draw(st.integers(1, len(core) - 1))]]])
+    for A in V:
+        if A not in core:
+            R.append([A, [T[draw(st.integers(0, len(T) - 1))]]])
+    seen, out = set(), []
+    for A, rhs in R:
+        if (A, tuple(rhs)) not in seen:
+            seen.add((A, tuple(rhs)))
+            out.append([A, rhs])
+    return {"V": V, "T": T, "R": out, "S": V[0]}
